@@ -38,15 +38,32 @@ func splitOffset(info *types.Info, e ast.Expr) (string, int64, bool) {
 	if _, isConst := core.ConstInt(info, e); isConst {
 		return "", 0, false
 	}
-	switch e.(type) {
-	case *ast.Ident, *ast.SelectorExpr:
+	switch x := e.(type) {
+	case *ast.Ident:
+		// a local with one definition `next := cursor + 1` stands for what it was defined as
+		if laBody != nil {
+			if def := singleDef(info, laBody, core.ObjOf(info, x)); def != nil {
+				if _, isCall := core.Unparen(def).(*ast.CallExpr); !isCall {
+					if b, k, ok := splitOffset(info, def); ok && k >= 1 {
+						return b, k, true
+					}
+				}
+			}
+		}
+		return types.ExprString(e), 0, true
+	case *ast.SelectorExpr:
 		return types.ExprString(e), 0, true
 	}
 	return "", 0, false
 }
 
+// laBody is the body of the function under analysis (the look-ahead rules run one function at a time): it lets
+// splitOffset see through locals that name a position plus a constant.
+var laBody *ast.BlockStmt
+
 func lookaheadSites(info *types.Info, fd *ast.FuncDecl) []laSite {
 	var out []laSite
+	laBody = fd.Body
 	// assignment targets are writes, not reads
 	lhs := map[ast.Expr]bool{}
 	ast.Inspect(fd.Body, func(n ast.Node) bool {
@@ -102,6 +119,7 @@ func lookaheadSites(info *types.Info, fd *ast.FuncDecl) []laSite {
 //
 // L is len(x), int64(len(x)), a variable defined from such, or the field Stream.length.
 func lengthBound(info *types.Info, fd *ast.FuncDecl, e ast.Expr) (base string, j int64, form string, ok bool) {
+	laBody = fd.Body
 	be, isB := core.Unparen(e).(*ast.BinaryExpr)
 	if !isB {
 		return
